@@ -12,7 +12,7 @@ _C = re.compile(r'<<"CONF", (\d+), "(\w+)", (\d+), (\d+)>>')
 
 def _root(trace_module, consts):
     defs = "\n".join("TC_%s == %s" % (k, v) for k, v in consts.items())
-    mod = "---- MODULE TR ----\nEXTENDS %s\n%s\n====\n" % (trace_module, defs)
+    mod = "---- MODULE TR ----\nEXTENDS %s, SDConfigs\n%s\n====\n" % (trace_module, defs)   # (named configurations may be used)
     cfg = "SPECIFICATION TSpec\nCONSTANTS\n" + "\n".join("  %s <- TC_%s" % (k, k) for k in consts) + \
           "\n  Inputs = {}\n  MaxEv = 0\n  MaxIdle = 0\n  MaxPerPoll = 0\n" \
           "CONSTRAINT Progress\nPOSTCONDITION Done\nCHECK_DEADLOCK FALSE\n"
